@@ -174,7 +174,11 @@ IsMacroEnd(s)   == s.op \in {"ENDM", "ENDR"}
 \* them inside an EVAL); the "arguments" of a unary operator are separated by real commas
 OneArgument(s) == Op(s.op).g = "fn" \/ (Op(s.op).g = "bo" /\ s.op \notin {"U-", "U~", "U~~"})
 \* SplitLine: a single empty argument is no argument at all (`<tab>aseg<tab>`)
-EffArgc(s) == IF s.argc = 1 /\ s.pos \in {1, 99} /\ s.cls = "empty" THEN 0 ELSE s.argc
+\*            an unterminated string / an open parenthesis swallows the commas behind it
+EffArgc(s) == IF s.argc = 1 /\ s.pos \in {1, 99} /\ s.cls = "empty" THEN 0
+              ELSE IF s.cls \in {"unterm", "paren"} /\ s.pos >= 1 /\ s.argc >= 1
+                   THEN (IF s.pos = 99 THEN 1 ELSE IF s.pos <= s.argc THEN s.pos ELSE s.argc)
+              ELSE s.argc
 ArgcBad(s) == LET o == Op(s.op) IN EffArgc(s) < o.lo \/ EffArgc(s) > o.hi
 
 (* ---------------------------------------------------------------------- *)
